@@ -401,6 +401,60 @@ FN_FLAGS_NOPERIOD = [0, 1, 2, 3, 8, 16, 17, 9, 24, 18, 27]
 FN_FLAGS_PERIOD = [4, 5, 7, 12, 20, 21, 31]
 
 
+CLASS_NAMES = [b"alnum", b"alpha", b"blank", b"cntrl", b"digit", b"graph", b"lower", b"print", b"punct",
+               b"space", b"upper", b"xdigit"]
+
+
+def class_name_variants():
+    """(a) valid, (b) every strict prefix, (c) empty, (d) valid + extra char, (e) wrong case, others"""
+    v = {}
+    for n in CLASS_NAMES:
+        v[n] = "valid"
+    for n in CLASS_NAMES:
+        for k in range(0, len(n)):
+            v.setdefault(n[:k], "empty" if k == 0 else "prefix")
+        for x in (b"x", b"s", b":", b" ", n[-1:]):
+            v.setdefault(n + x, "valid+extra")
+        v.setdefault(n.upper(), "wrong-case")
+        v.setdefault(n.capitalize(), "wrong-case")
+        v.setdefault(n[1:], "suffix")
+    for n in (b"bogus", b"word", b"ascii", b"alpha\\", b"a-z", b"0123456789", b"digitdigit", b"xdigitxdigit"):
+        v.setdefault(n, "other")
+    return sorted(v.items())
+
+
+def gen_fnmatch_classes(rng, full):
+    """bracket expressions with class names in every state of (in)validity × subjects inside and
+    outside the would-be class × negation × FNM_CASEFOLD; and the lookup `wctype_wcsn` itself"""
+    ops = []
+    subj = [b"a", b"Z", b"f", b"x", b"5", b" ", b"\t", b"_", b":", b"[", b"]", b".", b"/", b"\x7f", b""]
+    for name, kind in class_name_variants():
+        ops.append("wctype " + H(name))
+        forms = [b"[[:" + name + b":]]", b"[![:" + name + b":]]", b"[^[:" + name + b":]]",
+                 b"[[:" + name + b":]b]", b"[b[:" + name + b":]]", b"x[[:" + name + b":]]y", b"*[[:" + name + b":]]",
+                 # (f) unterminated
+                 b"[[:" + name + b":", b"[[:" + name + b"]", b"[[:" + name + b":]", b"[[:" + name, b"[:" + name + b":]"]
+        for p in forms:
+            for s in subj:
+                ss = [s]
+                if p.startswith(b"x"):
+                    ss = [b"x" + s + b"y"]
+                elif p.startswith(b"*"):
+                    ss = [b"file." + s]
+                for s2 in ss:
+                    for fl in ((0, 8) if not full else (0, 8, 1, 2, 4, 16)):
+                        if not full and kind == "valid+extra" and not rng.chance(1, 2):
+                            continue
+                        ops.append("fnmatch %s %s %d" % (H(p), H(s2), fl))
+    # the documented examples of the seeded change Xx3-3
+    for p, s in ((b"[[:al:]]", b"a"), (b"[[::]]", b"a"), (b"[[:x:]]", b"f"), (b"x[[:dig:]]y", b"x1y"),
+                 (b"*.[[:low:]]", b"file.c"), (b"[[:al:]b]", b"b"), (b"[[:alpha:]]", b"a"), (b"[[:alphax:]]", b"a")):
+        ops.append("fnmatch %s %s 0" % (H(p), H(s)))
+    for n in (b"", b"a", b"alpha", b"alphaa", b"ALPHA", b"alpha\x00", b"al\xe9", b"123456789", b"1234567890", b"xdigit", b"xdigi"):
+        ops.append("wctype " + H(n))
+    return ops
+
+
 def gen_fnmatch(rng, full):
     ops = []
     flags = FN_FLAGS_NOPERIOD + FN_FLAGS_PERIOD
@@ -424,6 +478,7 @@ def gen_fnmatch(rng, full):
         sl = rng.below(7)
         s = b"".join(rng.choice(subj_alpha[: (6 if rng.chance(2, 3) else len(subj_alpha))]) for _ in range(sl))
         ops.append("fnmatch %s %s %d" % (H(p), H(s), rng.choice(flags)))
+    ops += gen_fnmatch_classes(rng, full)
     # non-ASCII subjects / patterns (decoded as wide characters)
     for p, s in ((b"?", b"\xc3\xa9"), (b"??", b"\xc3\xa9"), (b"\xc3\xa9", b"\xc3\xa9"), (b"[\xc3\xa9]", b"\xc3\xa9"),
                  (b"*", b"\xff\xfe"), (b"??", b"\xff\xfe"), (b"?", b"\xe2\x82"), (b"a\xff", b"a\xff"), (b"a\xc3", b"a\xc3")):
